@@ -49,6 +49,11 @@ type Gen struct {
 	benign bool
 	// exps: absolute expiry seconds produced so far by short TTLs (boundary targets)
 	exps []int64
+	// withTTL: per type, (table,key) pairs that an expiry command was aimed at
+	withTTL map[string][][2]string
+	// shadow: a model instance fed with every generated command, so that the
+	// generator can aim commands at keys in a given state (C10 sequences)
+	shadow *Model
 }
 
 func pick(r *rand.Rand, p []string) string { return p[r.Intn(len(p))] }
@@ -186,12 +191,62 @@ func (g *Gen) Next() Op {
 	}
 	if IsWrite(o.Name) {
 		o.Ts = g.tick()
+		if g.shadow != nil {
+			g.shadow.Apply(o)
+		}
 	}
 	return o
 }
 
 func (g *Gen) op(name, k string, a ...string) Op {
-	return Op{Name: name, T: g.table(), K: k, A: a}
+	o := Op{Name: name, T: g.table(), K: k, A: a}
+	switch name {
+	case "expire", "hexpire", "lexpire", "sexpire", "zexpire", "setex":
+		g.noteTTL(o)
+	case "set":
+		if len(a) > 1 {
+			g.noteTTL(o)
+		}
+	}
+	return o
+}
+
+// noteTTL remembers (type, table, key) triples that were given an expiry.
+func (g *Gen) noteTTL(o Op) {
+	if g.withTTL == nil {
+		g.withTTL = map[string][][2]string{}
+	}
+	typ := typeOf(o.Name)
+	g.withTTL[typ] = append(g.withTTL[typ], [2]string{o.T, o.K})
+}
+
+// persistOp: PERSIST on a key that has no expiry is the input class of a known
+// conformance deviation (persist-without-ttl); nine times out of ten the
+// command is aimed at a key that was given an expiry earlier in the sequence.
+func (g *Gen) persistOp(name, k string) Op {
+	typ := typeOf(name)
+	if g.shadow != nil && g.r.Intn(10) != 0 {
+		// exact: keys that carry an expiry and are alive at the current log time
+		var c [][2]string
+		for _, tk := range g.withTTL[typ] {
+			if exp, _, ok := g.shadow.entry(typ, tk[0]+":"+tk[1]); ok && exp != 0 && !g.shadow.expiredW(exp, g.ts+1) {
+				c = append(c, tk)
+			}
+		}
+		if len(c) > 0 {
+			tk := c[g.r.Intn(len(c))]
+			return Op{Name: name, T: tk[0], K: tk[1]}
+		}
+	} else if c := g.withTTL[typ]; len(c) > 0 && g.r.Intn(10) != 0 {
+		tk := c[g.r.Intn(len(c))]
+		return Op{Name: name, T: tk[0], K: tk[1]}
+	}
+	if g.r.Intn(10) == 0 {
+		return Op{Name: name, T: g.table(), K: k}
+	}
+	// no candidate: give the key an expiry instead
+	exp := map[string]string{"kv": "expire", "hash": "hexpire", "list": "lexpire", "set": "sexpire", "zset": "zexpire"}[typ]
+	return g.op(exp, k, g.ttl())
 }
 
 func (g *Gen) kvKey() string {
@@ -216,7 +271,7 @@ func (g *Gen) genKV() Op {
 		case 0, 1:
 			return g.op("expire", k, g.ttl())
 		case 2:
-			return g.op("persist", k)
+			return g.persistOp("persist", k)
 		case 3:
 			return g.op("ttl", k)
 		case 4:
@@ -253,8 +308,15 @@ func (g *Gen) genKV() Op {
 	case 7:
 		return g.op("incrby", k, g.intArg())
 	case 8, 9:
+		if g.benign {
+			// no digits: "0"+"7" = "07" is the lenient-int input class (C08's)
+			return g.op("append", k, pick(r, []string{"x", "abc", "xy", "z"}))
+		}
 		return g.op("append", k, g.value())
 	case 10, 11:
+		if g.benign {
+			return g.op("setrange", k, g.offset(), pick(r, []string{"x", "Q", "ab"}))
+		}
 		return g.op("setrange", k, g.offset(), g.value())
 	case 12:
 		if g.benign {
@@ -319,7 +381,7 @@ func (g *Gen) genHash() Op {
 		case 0, 1:
 			return g.op("hexpire", k, g.ttl())
 		case 2:
-			return g.op("hpersist", k)
+			return g.persistOp("hpersist", k)
 		default:
 			return g.op("httl", k)
 		}
@@ -390,7 +452,7 @@ func (g *Gen) genList() Op {
 		case 0, 1:
 			return g.op("lexpire", k, g.ttl())
 		case 2:
-			return g.op("lpersist", k)
+			return g.persistOp("lpersist", k)
 		default:
 			return g.op("lttl", k)
 		}
@@ -440,7 +502,7 @@ func (g *Gen) genSet() Op {
 		case 0, 1:
 			return g.op("sexpire", k, g.ttl())
 		case 2:
-			return g.op("spersist", k)
+			return g.persistOp("spersist", k)
 		default:
 			return g.op("sttl", k)
 		}
@@ -489,7 +551,7 @@ func (g *Gen) genZSet() Op {
 		case 0, 1:
 			return g.op("zexpire", k, g.ttl())
 		case 2:
-			return g.op("zpersist", k)
+			return g.persistOp("zpersist", k)
 		default:
 			return g.op("zttl", k)
 		}
